@@ -28,7 +28,7 @@ def guarded(stmts):
 
 def programs():
     for (vn, mk), hint in itertools.product(VALUES, HINTS):
-        for pos in ("let", "for", "arg", "ret", "yield", "match", "catch", "mlet_ign", "mlet_id", "mlet_bare", "mlet_call", "for2", "for2_ign"):
+        for pos in ("let", "for", "arg", "ret", "ret_explicit", "ret_if", "ret_loop", "ret_or", "yield", "match", "catch", "mlet_ign", "mlet_id", "mlet_bare", "mlet_call", "for2", "for2_ign"):
             reset_ids()
             xs = objects() + [Asg("v", mk())]
             if pos == "let":
@@ -59,6 +59,21 @@ def programs():
                 xs += [Asg("f", Fn([Param("x", ty=hint)], Block([Int(1)]))), guarded([Asg("r", App(Id("f"), [Id("v")]))])]
             elif pos == "ret":
                 xs += [Asg("f", Fn([Param("x")], Block([Id("x")]), ret=hint)), guarded([Asg("r", App(Id("f"), [Id("v")]))])]
+            elif pos == "ret_explicit":
+                xs += [Asg("f", Fn([Param("x")], Block([Return(Id("x")), Int(0)]), ret=hint)), guarded([Asg("r", App(Id("f"), [Id("v")]))])]
+            elif pos == "ret_if":
+                # an early return in value position, feeding an assignment: the returned value is what the hint is about
+                xs += [Asg("f", Fn([Param("x")], Block([Asg("y", If([Bool(False)], [Block([Int(0)])], Block([Return(Id("x"))]))), Str("late")]), ret=hint)),
+                       guarded([Asg("r", App(Id("f"), [Id("v")]))])]
+            elif pos == "ret_loop":
+                # ... where the assigned variable already holds a value of another kind from the iteration before
+                xs += [Asg("f", Fn([Param("x")], Block([For(["k"], Tuple([Int(1), Int(2)]),
+                                                            Block([Asg("y", If([Cmp(["=="], [Id("k"), Int(1)])], [Block([Int(5)])], Block([Return(Id("x"))])))])),
+                                                        Str("late")]), ret=hint)),
+                       guarded([Asg("r", App(Id("f"), [Id("v")]))])]
+            elif pos == "ret_or":
+                xs += [Asg("f", Fn([Param("x")], Block([Asg("y", Or(Null(), Return(Id("x")))), Str("late")]), ret=hint)),
+                       guarded([Asg("r", App(Id("f"), [Id("v")]))])]
             elif pos == "yield":
                 xs += [Asg("g", Fn([Param("x")], Block([Yield(Id("x"))]), gen=True, ret=hint)),
                        guarded([Asg("r", MCall(App(Id("g"), [Id("v")]), "next", []))])]
